@@ -2,6 +2,7 @@ import SpoxModel.Lemmas.BuildAlgDfs
 import SpoxModel.Lemmas.BuildAlgLca
 import SpoxModel.Lemmas.BuildAlgEmit
 import SpoxModel.Lemmas.BuildAlgDiscover
+import SpoxModel.Lemmas.BuildAlgLeak
 /-! Property theorems for C04 (only property-level statements and non-vacuity examples live here). -/
 namespace C04
 open BuildAlg
@@ -160,5 +161,83 @@ theorem visit_spec_inputs (p : Prog) (hwf : WF p) (g : Nat) :
   refine ⟨(BuildAlg.visit_spec (rankV p) hrank p.fuel _ [] hf (closed_nil _)).1,
     visit_nodup (rankV p) hrank p.fuel _ [] List.nodup_nil,
     fun x => mem_visit_iff (rankV p) hrank p.fuel _ x hf⟩
+
+/-! ### leaks to an outer scope are rejected at build time -/
+
+/-- `Below p s g`: the body `s` is held by a node that `g` reaches through input edges, or by a node
+    that a body below `g` reaches (any nesting depth). -/
+inductive Below (p : Prog) : Nat → Nat → Prop
+  | direct {g n s : Nat} : Reach p.adjIn (.src g) (.node n) → s ∈ p.subs n → Below p s g
+  | trans {g t s : Nat} : Below p t g → Below p s t → Below p s g
+
+theorem discover_final (p : Prog) (hwf : WF p) (b : Built) (tr : List Ev)
+    (h : build p = .ok (b, tr)) :
+    ∃ st : DState, DI p st ∧ (0 : Nat) ∈ st.topo ∧ b.graphTopo = st.topo.reverse := by
+  unfold build at h
+  split at h
+  · cases h
+  · rename_i st hd
+    simp only at h
+    split at h
+    · cases h
+    · split at h
+      · cases h
+      · cases h
+        have hdi0 : DI p DState.empty :=
+          ⟨by intro h hh; simp [DState.empty] at hh, by intro e he; simp [DState.empty] at he,
+           by intro s hs; simp [DState.empty] at hs, by intro s hs; simp [DState.empty] at hs,
+           by intro s hs; simp [DState.empty] at hs, by intro s hs; simp [DState.empty] at hs⟩
+        obtain ⟨r1, _, _, r4⟩ := discover_spec p hwf _ (rankV p (.src 0) + 1) 0 DState.empty st
+          (by omega) hdi0 (by intro h hh; simp [Unfin, DState.empty] at hh) hd
+        exact ⟨st, r1, r4, rfl⟩
+
+theorem below_claimed (p : Prog) (hwf : WF p) (st : DState) (hdi : DI p st) {s g : Nat}
+    (hb : Below p s g) : g ∈ st.topo →
+      s ∈ st.topo ∧ ∃ n1 s1, V.node n1 ∈ p.postIn g ∧ s1 ∈ p.subs n1 ∧
+        ∀ x ∈ lookupL st.claimedIn s, x ∈ lookupL st.claimedIn s1 := by
+  induction hb with
+  | @direct g n s hr hs =>
+    intro hg
+    have hn : V.node n ∈ p.postIn g :=
+      (mem_visit_iff (rankV p) (rank_adjIn p hwf) p.fuel _ _ (rank_src_lt_fuel p hwf g)).mpr hr
+    exact ⟨hdi.C g hg n hn s hs, n, s, hn, hs, fun x hx => hx⟩
+  | @trans g t s _ _ ih1 ih2 =>
+    intro hg
+    obtain ⟨ht, n1, s1, hn1, hs1, hsub1⟩ := ih1 hg
+    obtain ⟨hs, n2, s2, hn2, hs2, hsub2⟩ := ih2 ht
+    refine ⟨hs, n1, s1, hn1, hs1, ?_⟩
+    intro x hx
+    exact hsub1 x (hdi.J2 t ht n2 hn2 s2 hs2 x (hsub2 x hx))
+
+/-- In a successful build no graph reaches, through input edges, an argument of a body below it. -/
+theorem no_outer_leak (p : Prog) (hwf : WF p) (b : Built) (tr : List Ev)
+    (h : build p = .ok (b, tr)) (g s : Nat) (hg : g ∈ b.graphTopo) (hs : Below p s g)
+    (pg : PGraph) (l : List Nat) (hpg : p.graphs[s]? = some pg) (hl : pg.args = some l)
+    (a : Nat) (ha : a ∈ l) : ¬ Reach p.adjIn (.src g) (.node a) := by
+  obtain ⟨st, hdi, _, htopo⟩ := discover_final p hwf b tr h
+  have hg' : g ∈ st.topo := by rw [htopo] at hg; simpa using hg
+  obtain ⟨hst, n1, s1, hn1, hs1, hsub⟩ := below_claimed p hwf st hdi hs hg'
+  intro hr
+  have hmem : V.node a ∈ p.postIn g :=
+    (mem_visit_iff (rankV p) (rank_adjIn p hwf) p.fuel _ _ (rank_src_lt_fuel p hwf g)).mpr hr
+  exact hdi.L g hg' n1 hn1 s1 hs1 a (hsub a (hdi.J1 s hst pg l hpg hl a ha))
+    (hwf.args_arg s pg hpg l hl a ha) hmem
+
+/-- **leak_rejected** (outer scope): if the main graph, or any body below it, uses directly (through
+    input edges, i.e. outside every body) an argument that belongs to a body below it — at any
+    nesting depth — then `build` raises (the `claimed & used` test: `BuildError`, or any earlier
+    error); it never returns a model. -/
+theorem leak_rejected (p : Prog) (hwf : WF p) (g s : Nat) (hg : g = 0 ∨ Below p g 0)
+    (hs : Below p s g) (pg : PGraph) (l : List Nat) (hpg : p.graphs[s]? = some pg)
+    (hl : pg.args = some l) (a : Nat) (ha : a ∈ l) (hleak : Reach p.adjIn (.src g) (.node a)) :
+    ∀ b tr, build p ≠ .ok (b, tr) := by
+  intro b tr h
+  obtain ⟨st, hdi, h0, htopo⟩ := discover_final p hwf b tr h
+  have hg' : g ∈ b.graphTopo := by
+    rw [htopo]
+    rcases hg with hg | hg
+    · subst hg; simpa using h0
+    · simpa using (below_claimed p hwf st hdi hg h0).1
+  exact no_outer_leak p hwf b tr h g s hg' hs pg l hpg hl a ha hleak
 
 end C04
